@@ -24,6 +24,10 @@ type c16Rel struct {
 	Probe func(tu []T) bool
 	// Guard: whether the relation is complete for this call (nil = always)
 	Guard func(mask string, bv []T) bool
+	// Outside: per argument position, values that lie outside the relation's domain altogether (huge or
+	// negative codes, lengths, indexes): a call with such a value bound may fail or raise an error but must
+	// not answer
+	Outside map[int][]T
 }
 
 type c16Case struct {
@@ -31,6 +35,7 @@ type c16Case struct {
 	Goal     *ref.JTerm `json:"goal"`
 	Names    []string   `json:"names"`
 	Expected []string   `json:"expected"` // multiset of canonical answers
+	Outside  bool       `json:"outside,omitempty"` // a value outside the domain: no answer (failure or error)
 }
 
 func c16Relations(thorough bool) []c16Rel {
@@ -56,8 +61,11 @@ func c16Relations(thorough bool) []c16Rel {
 			Guard: func(mask string, bv []T) bool { return true }},
 		{Name: "sub_atom", Tuples: ref.RelSubAtom(small), Modes: []string{"+????"}},
 		{Name: "atom_chars", Tuples: ref.RelAtomChars(atoms), Modes: []string{"+?", "-+"}},
-		{Name: "atom_codes", Tuples: ref.RelAtomCodes(atoms), Modes: []string{"+?", "-+"}},
-		{Name: "char_code", Tuples: ref.RelCharCode(append(append([]string{}, alpha...), "z", " ", "\n", "'", "ß", "\\")), Modes: []string{"+?", "-+"}},
+		{Name: "atom_codes", Tuples: ref.RelAtomCodes(atoms), Modes: []string{"+?", "-+"},
+			Outside: map[int][]T{1: {ref.List(I(1<<32 + 97)), ref.List(I(97), I(-1)), ref.List(I(math.MinInt64)), ref.List(I(0x110000))}}},
+		{Name: "atom_length", Tuples: ref.RelAtomLength(atoms[:3]), Modes: []string{"+?"}, Outside: map[int][]T{1: {I(1<<32 + 1), I(math.MaxInt64)}}},
+		{Name: "char_code", Tuples: ref.RelCharCode(append(append([]string{}, alpha...), "z", " ", "\n", "'", "ß", "\\")), Modes: []string{"+?", "-+"},
+			Outside: map[int][]T{1: {I(1<<32 + 97), I(-1), I(1 << 31), I(math.MinInt64), I(math.MaxInt64), I(0x110000), I(0xD800), I(-4294967199)}}},
 		{Name: "functor", Tuples: ref.RelFunctor(terms), Modes: []string{"+??"}},
 		{Name: "arg", Tuples: ref.RelArg(terms), Modes: []string{"++?"}},
 		{Name: "=..", Tuples: ref.RelUniv(terms), Modes: []string{"+?", "-+"}},
@@ -81,6 +89,10 @@ func canon1(t T) string { return ref.Canon(t, ref.NewNamer()) }
 
 func c16Run(im *h.Impl, c *c16Case) (exp, act string, ok bool) {
 	goal := ref.Dec(c.Goal, map[string]*ref.Var{})
+	if c.Outside {
+		o := im.Query(ref.Text(goal)+".", nil, 3)
+		return "no answer (failure or an error)", o.String(), len(o.Answers) == 0
+	}
 	o, _ := im.QueryTerms(ref.Text(goal)+".", c.Names, 400)
 	got := append([]string{}, o.Answers...)
 	sort.Strings(got)
@@ -128,6 +140,31 @@ func c16Work(w *h.W) {
 			sort.Strings(ks)
 			for _, k := range ks {
 				vals[i] = append(vals[i], valSet[i][k])
+			}
+		}
+		for pos, outs := range rel.Outside {
+			for _, ov := range outs {
+				if !w.Mine() {
+					continue
+				}
+				args := make([]T, ar)
+				for i := range args {
+					args[i] = V(fmt.Sprintf("V%d", i))
+				}
+				args[pos] = ov
+				goal := &ref.Cmp{F: rel.Name, Args: args}
+				w.Guard(goal)
+				o := im.Query(ref.Text(goal)+".", nil, 3)
+				w.Unguard()
+				w.Eval(1)
+				w.States(1)
+				w.Transitions(1)
+				w.Traces(1)
+				w.Outcome(rel.Name + "/outside:" + o.Status)
+				if len(o.Answers) > 0 {
+					c := &c16Case{Rel: rel.Name, Goal: ref.Enc(goal), Outside: true}
+					w.Violation(fmt.Sprintf("rel %s: a value outside the domain is answered", rel.Name), c, "no answer (failure or an error)", o.String(), 1)
+				}
 			}
 		}
 		seenMask := map[string]bool{}
@@ -456,7 +493,7 @@ func c16Replay(b []byte) (string, string, bool) {
 func init() {
 	h.Register(&h.Check{
 		ID: "C16",
-		Rule: "for each of the 17 predicates: the COMPLETE finite relation over a domain is computed by brute force (atoms of <= 2/3 characters over {a,b,é,日} so that byte and character offsets differ; lists of <= 3/4 elements; 12 terms; integers near 0 and near +-2^63), then for every instantiation pattern the predicate's modes admit and every combination of bound values (all projections of the relation plus all one-position mutations, i.e. matching and non-matching calls) the call is run to exhaustion and its answers compared AS A MULTISET with the matching tuples; modes that create variables or enumerate infinitely (length/2, append/3, between/3 with inf, member/select on partial lists, functor/3 and =../2 construction) are compared with the reference machine on their first answers; chains: the input list is itself the answer of one of 12 built-in constructions (literal, append/3, findall/3, sort/2, =../2, atom_chars/2, atom_codes/2, copy_term/2, length/2, term_variables/2, nested, append in split mode) at every length 0..9 (10), and every ordered pair of 11 calls that extend/decompose that same list runs in one conjunction with both answers kept, compared with the reference machine; fresh identity: atoms whose substrings no execution of the process has interned before (unique doubled names, ASCII and multi-byte) through 7 goals over sub_atom/5, atom_concat/3, atom_chars/2, atom_codes/2: answers with equal text are one atom (== implies unifiable), within a call, across calls and across routes. Non-trivial = at least one matching tuple; distinct = goal text.",
+		Rule: "for each of the 17 predicates: the COMPLETE finite relation over a domain is computed by brute force (atoms of <= 2/3 characters over {a,b,é,日} so that byte and character offsets differ; lists of <= 3/4 elements; 12 terms; integers near 0 and near +-2^63), then for every instantiation pattern the predicate's modes admit and every combination of bound values (all projections of the relation plus all one-position mutations, i.e. matching and non-matching calls) the call is run to exhaustion and its answers compared AS A MULTISET with the matching tuples; modes that create variables or enumerate infinitely (length/2, append/3, between/3 with inf, member/select on partial lists, functor/3 and =../2 construction) are compared with the reference machine on their first answers; values outside the domain altogether (codes beyond 32 bits, negative, surrogate, beyond U+10FFFF; huge lengths) must not be answered; chains: the input list is itself the answer of one of 12 built-in constructions (literal, append/3, findall/3, sort/2, =../2, atom_chars/2, atom_codes/2, copy_term/2, length/2, term_variables/2, nested, append in split mode) at every length 0..9 (10), and every ordered pair of 11 calls that extend/decompose that same list runs in one conjunction with both answers kept, compared with the reference machine; fresh identity: atoms whose substrings no execution of the process has interned before (unique doubled names, ASCII and multi-byte) through 7 goals over sub_atom/5, atom_concat/3, atom_chars/2, atom_codes/2: answers with equal text are one atom (== implies unifiable), within a call, across calls and across routes. Non-trivial = at least one matching tuple; distinct = goal text.",
 		Explanation: "state = one call pattern with bound values; transition = the call run to exhaustion on the real interpreter; oracle = the brute-force relation filtered by the bound arguments (each tuple exactly once, nothing else) - which also gives the monotonicity clause, since a more instantiated call is compared with the matching subset of the same relation",
 		Assumptions: []string{"ref/relations: brute-force definitions (all splits, all (B,L,A) triples, all index/element pairs ...) with text measured in runes", "member/2 and select/3 answer once per occurrence (position) of the element", "errors for calls outside the modes belong to C05"},
 		Work:        c16Work,
